@@ -632,7 +632,7 @@ func c24RealReal(x *c24Ctx, ops []c24Op) {
 			// the application callback failed: the protocol is torn down; on a
 			// non-blocking request that must not be reported to the peer as Done
 			rec.Class("A:callback_error")
-			p.srvErr.waitDone(callWait)
+			waitTornDownOrDone(p, sv, sessions)
 			rec.Eval()
 			x.nt = true
 			if !o.Blocking && sv.doneCount() >= sessions {
@@ -684,7 +684,7 @@ func c24RealReal(x *c24Ctx, ops []c24Op) {
 			}
 			rec.Class("A:stop_on_nonblocking")
 			// must not end the protocol with Done: the connection is torn down instead
-			p.srvErr.waitDone(callWait)
+			waitTornDownOrDone(p, sv, sessions)
 			rec.Eval()
 			if sv.doneCount() >= sessions {
 				x.fail("C24:A:done-on-nonblocking", fmt.Sprintf("op %d %s: the outbound side answered a non-blocking request with Done (server DoneFunc ran)", i, o))
@@ -732,6 +732,17 @@ func c24RealReal(x *c24Ctx, ops []c24Op) {
 		prev = "ids"
 	}
 	x.cs["ended"] = "history complete"
+}
+
+// waitTornDownOrDone waits until the server connection has shut down or the
+// server has seen Done for the current session, whichever comes first.
+func waitTornDownOrDone(p *pair, sv *c24Server, sessions int) {
+	deadline := time.Now().Add(callWait)
+	for time.Now().Before(deadline) {
+		if sv.doneCount() >= sessions || p.srvErr.waitDone(5*time.Millisecond) {
+			return
+		}
+	}
 }
 
 func firstId(a []txsubmission.TxIdAndSize) string {
